@@ -348,6 +348,11 @@ def r14_repr_eval(ctx):
     for nt in (0, 1, 2):
         objs.append((f'MidiFile[{nt} tracks]', lambda nt=nt: ai.apply(_CR(mfc), [], {'type': 1, 'ticks_per_beat': smf.sym('tpb', 32766, 1),
                                                                                      'tracks': AList([track(2 - i)() for i in range(nt)], 'list')}, None)))
+    # a file as loaded from an SMPTE-division header (a negative ticks_per_beat): the constructor repr names must accept what the
+    # loader stores
+    for tpb_ in (-6360, 1, 32767):
+        objs.append((f'MidiFile[ticks_per_beat={tpb_}]', lambda tpb_=tpb_: ai.apply(_CR(mfc), [], {'type': 1, 'ticks_per_beat': tpb_,
+                                                                                          'tracks': AList([track(1)()], 'list')}, None)))
     for label, factory in objs:
         n += 1
         holder = {}
@@ -378,7 +383,7 @@ def r14_repr_eval(ctx):
                 ok = False
                 why = f'repr text {src!r} is not a Python expression ({e.msg})'
         ctx.require(ok, 'R14.1', f'eval(repr({label}))', w, why, construct=cons)
-    ctx.floor('R14.1-eval', n, 39)
+    ctx.floor('R14.1-eval', n, 42)
     for q in ai.inlined:
         ctx.functions.add(q)
 
@@ -398,6 +403,10 @@ def r14_state(ctx):
     # as the one eval(repr(x)) builds
     from . import c15
     ctx.borrow(c15.r15_canonical, 'R14.0')
+    # "raises ValueError for any text that is not a valid message" includes values outside the documented domains: the text
+    # entry points go through the same checks as the constructor, and those accept exactly the documented values (shared with
+    # C03 R03.2)
+    ctx.borrow(c03.r03_2, 'R14.6')
 
 
 RULES.append(('R14.0', r14_state))
